@@ -48,7 +48,7 @@ CogShock == {"Cog19", "Cog20", "Cog21"}
 RiemannFams == {"RiemannIG", "RiemannGen"}
 (* families without a 1-D hydrodynamic scan row (burn times, heat conduction, elasticity): relation / field laws only *)
 BurnFams  == {"Kenamond1", "Kenamond2", "Kenamond3", "DSDcyl"}
-PlainFams == {"Blake", "Rod1D", "Hutchens1"}
+PlainFams == {"Rod1D", "Hutchens1"}
 G_Sedov == {<<"interior", "shock", "ambient">>, <<"vacuum", "cont", "interior">>}
 G_Piston == {<<"plastic", "shock", "elastic">>, <<"elastic", "shock", "rest">>}
 (* escape of HE products: product regions are separated by characteristics (continuous); the only jump is the  *)
@@ -57,7 +57,7 @@ R_EHEP == {"00", "I", "II", "III", "IV", "V", "0H", "0V", "None"}
 G_EHEP == {<<a, "cont", b>> : a \in R_EHEP \ {"0H", "00"}, b \in R_EHEP \ {"0H", "00"}}
           \cup {<<a, "detonation", "0H">> : a \in {"I", "III", "IV", "V"}}
           \cup {<<"00", "piston", b>> : b \in {"I", "II", "III", "IV", "V"}} \cup {<<"0H", "interface", "0V">>}
-Families == {"Noh", "Noh2", "Noh2Cog", "Sedov", "EPpiston", "EHEP", "Mader"} \cup BurnFams \cup RiemannFams \cup PlainFams \cup CogNone \cup CogDiv \cup CogFull \cup CogShock
+Families == {"Noh", "Noh2", "Noh2Cog", "Sedov", "EPpiston", "EHEP", "Mader"} \cup {"Blake"} \cup BurnFams \cup RiemannFams \cup PlainFams \cup CogNone \cup CogDiv \cup CogFull \cup CogShock
 
 Cat == [f \in Families |->
   CASE f = "Noh"        -> Row("gamma", "euler",   "closed", {"post", "pre"}, G_PostPre, FALSE)
@@ -67,6 +67,7 @@ Cat == [f \in Families |->
     [] f = "EPpiston"   -> RowF("additive", "none", "closed", {"plastic", "elastic", "rest"}, G_Piston, FALSE, {"rest"})
     [] f = "EHEP"       -> RowF("gamma", "euler", "ehep", R_EHEP, G_EHEP, TRUE, {})
     [] f = "Mader"      -> RowF("cjisentrope", "none", "table", {"mader"}, G_Smooth, FALSE, {})
+    [] f = "Blake"      -> RowF("none", "none", "closed", {"he"}, G_Smooth, FALSE, {})
     [] f \in BurnFams   -> RowF("none", "none", "closed", {"detonator", "he"}, G_Smooth, FALSE, {})
     [] f = "RiemannIG"  -> RowF("gamma2", "euler", "closed", R_Riemann, G_Riemann, FALSE, {"R"})
     [] f = "RiemannGen" -> RowF("gamma2", "euler", "table",  R_Riemann, G_Riemann, FALSE, {"R"})
@@ -97,6 +98,19 @@ Conduction(f, p, geometry) ==
     [] f = "Cog16" -> LET a == QSub(<<1, 1>>, QInv(k))
                       IN  [alpha |-> a, beta |-> QSub(QDiv(a, <<2, 1>>), <<3, 1>>)]
     [] OTHER -> [alpha |-> <<0, 1>>, beta |-> <<0, 1>>]
+
+(* Field laws of the non-hydrodynamic families: the balances (eq) and one-sided bounds (ineq) that a point of *)
+(* a scan may carry; the projection supplies the term vectors, the names and their meaning are fixed here.   *)
+(* Blake (C15): spherical elastic wave equation u_tt = c_L^2 (u_rr + 2 u_r / r - 2 u / r^2); strains are the    *)
+(* derivatives of the displacement; Hooke's law, pressure, deviators, density; sigma_rr(a, t) = -p0.          *)
+FieldLaws(f) ==
+  CASE f \in BurnFams -> [eq |-> {"det-time", "eikonal"}, ineq |-> {"det-not-late", "causal", "lipschitz"}]
+    [] f = "Blake"    -> [eq |-> {"wave", "strain_rr=du/dr", "strain_qq=u/r", "strain_vol", "curr_posn", "density", "hooke_rr", "hooke_qq",
+                                  "pressure", "dev_rr", "dev_qq", "stress_diff", "cavity", "zero-ahead"}, ineq |-> {}]
+    [] f \in {"Rod1D", "Hutchens1", "Hutchens2", "Rectangle", "CylSandwich", "PlanarSandwich"}
+                      -> [eq |-> {"heat", "bc-left", "bc-right", "initial", "steady", "regular"}, ineq |-> {}]
+    [] f = "SuOlson"  -> [eq |-> {"rad", "mat", "marshak"}, ineq |-> {"v<=u", "u<=1", "v>=0", "decay", "mono-x", "mono-t"}]
+    [] OTHER -> [eq |-> {}, ineq |-> {}]
 
 (* The gamma each family uses: "param" = the user's parameter, otherwise *)
 (* a rule in k = geometry - 1 (Coggeshall 3, 5, 6, 7, 18, 21).           *)
